@@ -108,12 +108,7 @@ func (x *Exec) doCall(res ssa.Value, call *ssa.CallCommon, p token.Pos) {
 						x.setSV("KV.itvalid", "Bool", "false")
 					}
 					x.V.noteAssumed(key + " calls its callback exactly once and returns its result")
-					x.callFunction(args[idx].Fn, args[idx].Binds, cbArgs, nil, setRes, p)
-					if c.Options["counts"] == "write" {
-						// the whole transaction is one top-level (atomic) write
-						w := x.getSV("KV.writes", "Int")
-						x.setSV("KV.writes", "Int", "(+ "+w+" 1)")
-					}
+					x.runTransaction(c, key, args[idx], cbArgs, setRes, p)
 					return
 				}
 				x.markA(key + ": callback argument is not a closure literal")
@@ -184,6 +179,32 @@ func (x *Exec) doCall(res ssa.Value, call *ssa.CallCommon, p token.Pos) {
 	x.unknownCall("funcvalue:"+call.Value.Name()+":"+tn, call.Signature().Results(), setRes, false)
 }
 
+// runTransaction executes the callback of a View/Update/BulkWrite-like call in place.
+// With `option onerror=rollback` the store keeps the callback's writes only when the
+// callback returns no error: a transaction whose function fails is aborted (bolt, badger
+// and pebble Update; the write batch of BulkWrite is cancelled).
+func (x *Exec) runTransaction(c *Contract, key string, fn Val, cbArgs []Val, setRes func(Val), p token.Pos) {
+	rollback := c.Options["onerror"] == "rollback"
+	var preDom, preVal Term
+	if rollback {
+		preDom = x.getSV("KV.dom", ghostSVs["KV.dom"])
+		preVal = x.getSV("KV.val", ghostSVs["KV.val"])
+	}
+	var res Val
+	x.callFunction(fn.Fn, fn.Binds, cbArgs, nil, func(v Val) { res = v; setRes(v) }, p)
+	if rollback && res.T != "" {
+		failed := "(not (= " + x.termOf(res) + " ANil))"
+		x.setSV("KV.dom", ghostSVs["KV.dom"], ite(failed, preDom, x.getSV("KV.dom", ghostSVs["KV.dom"])))
+		x.setSV("KV.val", ghostSVs["KV.val"], ite(failed, preVal, x.getSV("KV.val", ghostSVs["KV.val"])))
+		x.V.noteAssumed(key + " discards the writes of its callback when the callback returns an error")
+	}
+	if c.Options["counts"] == "write" {
+		// the whole transaction is one top-level (atomic) write
+		w := x.getSV("KV.writes", "Int")
+		x.setSV("KV.writes", "Int", "(+ "+w+" 1)")
+	}
+}
+
 func ifaceKey(t types.Type, m *types.Func) string {
 	n := t.String()
 	if nt, ok := t.(*types.Named); ok {
@@ -248,6 +269,35 @@ func (x *Exec) callFunction(f *ssa.Function, binds []Val, args []Val, call *ssa.
 		return
 	}
 	if c := x.V.contractFor(f); c != nil && !c.Inline {
+		if cb := c.Options["callback"]; cb != "" {
+			// an assumed library function that "calls its function argument exactly once,
+			// synchronously, and returns what it returns" (index counted over the call's
+			// arguments, receiver first): the closure is executed in place
+			var idx int
+			fmt.Sscanf(cb, "%d", &idx)
+			if idx < len(args) && args[idx].Fn != nil {
+				fsig := args[idx].Fn.Signature
+				var cbArgs []Val
+				for i := 0; i < fsig.Params().Len(); i++ {
+					pt := fsig.Params().At(i).Type()
+					fresh := tv(x.smt.fresh("cbarg", x.smt.sortOf(pt)))
+					if x.smt.sortOf(pt) == "Any" {
+						x.smt.assume(implies(x.reach, "(not (= "+fresh.T+" ANil))"))
+					} else if _, isPtr := pt.Underlying().(*types.Pointer); isPtr {
+						x.smt.assume(implies(x.reach, "(> "+fresh.T+" 0)"))
+					}
+					cbArgs = append(cbArgs, fresh)
+				}
+				x.ensureGhost(c.Modifies)
+				if pre := c.Options["before"]; pre == "resetiter" {
+					x.setSV("KV.itvalid", "Bool", "false")
+				}
+				x.V.noteAssumed(x.V.funcKey(f) + " calls its callback exactly once and returns its result")
+				x.runTransaction(c, x.V.funcKey(f), args[idx], cbArgs, setRes, p)
+				return
+			}
+			x.markA(x.V.funcKey(f) + ": callback argument is not a closure literal")
+		}
 		var names []string
 		var tys []types.Type
 		if sig.Recv() != nil {
@@ -427,7 +477,7 @@ func (x *Exec) root() *Exec {
 
 // applyContract: assert requires, havoc the frame, assume ensures.
 func (x *Exec) applyContract(c *Contract, name string, args []Val, names []string, tys []types.Type, results *types.Tuple, p token.Pos) Val {
-	env := &SpecEnv{vars: map[string]SpecVal{}, x: x}
+	env := &SpecEnv{vars: map[string]SpecVal{}, x: x, callee: true}
 	if err := x.usePreludes(c); err != nil {
 		x.specError(NamedExpr{Name: "prelude:" + name}, err)
 	}
